@@ -13,6 +13,7 @@ from .common import norm
 
 ORDER_KEEPING = ("filter", "list", "prefix")
 ORDER_LOSING = ("set", "sorted", "reversed", "dictkeys")
+MULTIPLICITY_LOSING = ("dedup",)
 
 
 def module_patterns(cm):
@@ -139,11 +140,30 @@ class Terms:
     def _pattern_of(self, fnode, env):
         """(text, v1, module) when fnode is re/regex module or a compiled module constant"""
         if isinstance(fnode, ast.Name):
-            if fnode.id in ("re", "regex"):
+            if fnode.id in ("re", "regex") and fnode.id not in env:
                 return ("module", fnode.id)
-            if fnode.id in self.pats and fnode.id not in env:
-                text, v1, _st, mod = self.pats[fnode.id]
-                return ("compiled", text, v1 or mod == "regex", fnode.id)
+            name = fnode.id
+            # a local that stands for a module-level compiled pattern (e.g. a row of a table)
+            seen = 0
+            while name in env and isinstance(env[name], tuple) and env[name][0] == "var" and seen < 4:
+                name = env[name][1]
+                seen += 1
+            if name in self.pats and name not in env:
+                text, v1, _st, mod = self.pats[name]
+                return ("compiled", text, v1 or mod == "regex", name)
+        return None
+
+    def _module_table(self, name):
+        """elements of a module-level tuple / list literal NAME = (...), or None"""
+        for st in self.cm.tree.body:
+            val = None
+            if isinstance(st, ast.Assign) and len(st.targets) == 1 and isinstance(st.targets[0], ast.Name) \
+                    and st.targets[0].id == name:
+                val = st.value
+            elif isinstance(st, ast.AnnAssign) and isinstance(st.target, ast.Name) and st.target.id == name:
+                val = st.value
+            if isinstance(val, (ast.Tuple, ast.List)) and len(val.elts) <= 12:
+                return list(val.elts)
         return None
 
     def _call(self, c, env):
@@ -199,7 +219,8 @@ class Terms:
                     text, v1, rest = pat[1], pat[2], args
                     label = pat[3]
                 if meth == "sub" and len(rest) >= 2:
-                    repl = rest[0].value if isinstance(rest[0], ast.Constant) else None
+                    rt = self.ev(rest[0], env)
+                    repl = rt[1] if isinstance(rt, tuple) and rt[0] == "const" else None
                     return ("sub", text, v1, repl, self.ev(rest[1], env), label, c)
                 if meth == "split" and rest:
                     return ("resplit", text, self.ev(rest[0], env), c)
@@ -220,6 +241,8 @@ class Terms:
                 return ("list", base)
             if meth in ("keys", "values", "items") and not args:
                 return ("dictkeys", base)
+            if meth == "fromkeys" and isinstance(f.value, ast.Name) and f.value.id in ("dict", "OrderedDict") and args:
+                return ("dedup", self.ev(args[0], env))
             ats = [self.ev(a, env) for a in args]
             self.calls.append((norm(f)[:60], ats, c))
             return ("mcall", meth, base, ats)
@@ -303,6 +326,14 @@ class Terms:
                         env[k] = a if b is None else b
                     else:
                         env[k] = ("phi", a, b)
+        elif isinstance(st, (ast.For, ast.AsyncFor)) and isinstance(st.iter, ast.Name) \
+                and st.iter.id not in env and self._module_table(st.iter.id) is not None \
+                and not any(isinstance(n, (ast.Break, ast.Continue)) for n in ast.walk(st)):
+            # a loop over a module-level table: unrolled, row by row
+            for row in self._module_table(st.iter.id):
+                self._bind(st.target, self.ev(row, env), env)
+                self.run(st.body, env, guards)
+            self.run(st.orelse, env, guards)
         elif isinstance(st, (ast.For, ast.AsyncFor)):
             it = self.ev(st.iter, env)
             before = dict(env)
